@@ -1239,11 +1239,7 @@ func (e *Exec) scopeVars(fr *frame, st *State, li *loopInfo) map[string]SV {
 			}
 		}
 	}
-	for _, p := range fr.fn.Params {
-		if sv, ok := st.env[p]; ok {
-			vars[p.Name()] = sv
-		}
-	}
+	bindParams(fr.fn, func(i int, p *ssa.Parameter) (SV, bool) { sv, ok := st.env[p]; return sv, ok }, vars)
 	for _, p := range fr.fn.FreeVars {
 		if sv, ok := st.env[p]; ok {
 			// free vars are pointers to the captured variable
